@@ -226,21 +226,77 @@ type segment struct {
 	waitRecv int
 }
 
-// hostileServer is a loopback TCP server that, for every accepted connection,
-// discards what the peer sends and writes its script, then half-closes and
-// waits until the peer has closed its side: at that moment the peer (lal,
-// which parses in its reading goroutine) has consumed everything it is going to
-// consume.
-type hostileServer struct {
-	ln     net.Listener
-	Addr   string
-	script func(conn int) []segment
+// hostileListener is the one loopback TCP listener of the process that plays the hostile upstream server (a listener
+// per case would leave thousands of TIME-WAIT sockets on as many ports and exhaust the ephemeral ports of a shared
+// machine).  For every accepted connection it discards what the peer sends and writes the current script, then
+// half-closes and waits until the peer has closed its side: at that moment the peer (lal, which parses in its reading
+// goroutine) has consumed everything it is going to consume.
+type hostileListener struct {
+	ln   net.Listener
+	addr string
 
 	mu       sync.Mutex
+	cond     *sync.Cond
+	script   func(conn int) []segment // nil: no case is running, connections are closed at once
+	base     int                      // number of connections accepted before the current case
+	gen      int                      // case generation: connections of earlier cases do not count
 	accepted int
 	finished int
-	cond     *sync.Cond
 	conns    []net.Conn
+}
+
+var (
+	hostileOnce sync.Once
+	hostileL    *hostileListener
+	hostileErr  error
+)
+
+func theHostileListener() (*hostileListener, error) {
+	hostileOnce.Do(func() {
+		var ln net.Listener
+		for try := 0; try < 20; try++ {
+			if ln, hostileErr = net.Listen("tcp", "127.0.0.1:0"); hostileErr == nil {
+				break
+			}
+			time.Sleep(100 * time.Millisecond)
+		}
+		if hostileErr != nil {
+			return
+		}
+		h := &hostileListener{ln: ln, addr: ln.Addr().String()}
+		h.cond = sync.NewCond(&h.mu)
+		hostileL = h
+		go func() {
+			for {
+				c, err := ln.Accept()
+				if err != nil {
+					return
+				}
+				h.mu.Lock()
+				script := h.script
+				idx := h.accepted - h.base
+				gen := h.gen
+				if script != nil {
+					h.accepted++
+					h.conns = append(h.conns, c)
+					h.cond.Broadcast()
+				}
+				h.mu.Unlock()
+				if script == nil {
+					_ = c.Close() // a straggler of an earlier case
+					continue
+				}
+				go h.serve(c, script(idx), gen)
+			}
+		}()
+	})
+	return hostileL, hostileErr
+}
+
+// hostileServer is the handle of one case on the shared listener.
+type hostileServer struct {
+	l    *hostileListener
+	Addr string
 }
 
 func newHostileServer(script func(conn int) ([]byte, []int)) *hostileServer {
@@ -251,35 +307,27 @@ func newHostileServer(script func(conn int) ([]byte, []int)) *hostileServer {
 }
 
 func newHostileServerSeg(script func(conn int) []segment) *hostileServer {
-	ln, err := net.Listen("tcp", "127.0.0.1:0")
-	if err != nil {
-		panic(pbt.HarnessError{Msg: "c13: cannot listen on loopback: " + err.Error()})
+	l, err := theHostileListener()
+	if l == nil {
+		panic(pbt.HarnessError{Msg: fmt.Sprintf("c13: cannot listen on loopback: %v", err)})
 	}
-	h := &hostileServer{ln: ln, Addr: ln.Addr().String(), script: script}
-	h.cond = sync.NewCond(&h.mu)
-	go func() {
-		for {
-			c, err := ln.Accept()
-			if err != nil {
-				return
-			}
-			h.mu.Lock()
-			idx := h.accepted
-			h.accepted++
-			h.conns = append(h.conns, c)
-			h.cond.Broadcast()
-			h.mu.Unlock()
-			go h.serve(c, idx)
-		}
-	}()
-	return h
+	l.mu.Lock()
+	l.script = script
+	l.gen++
+	l.base = l.accepted
+	l.finished = 0
+	l.accepted = l.base
+	l.mu.Unlock()
+	return &hostileServer{l: l, Addr: l.addr}
 }
 
-func (h *hostileServer) serve(c net.Conn, idx int) {
+func (h *hostileListener) serve(c net.Conn, segs []segment, gen int) {
 	defer func() {
 		_ = c.Close()
 		h.mu.Lock()
-		h.finished++
+		if gen == h.gen {
+			h.finished++
+		}
 		h.cond.Broadcast()
 		h.mu.Unlock()
 	}()
@@ -300,7 +348,7 @@ func (h *hostileServer) serve(c net.Conn, idx int) {
 		}
 	}()
 	_ = c.SetWriteDeadline(time.Now().Add(30 * time.Second))
-	for _, seg := range h.script(idx) {
+	for _, seg := range segs {
 		if seg.waitRecv > 0 {
 			deadline := time.Now().Add(5 * time.Second)
 			for time.Now().Before(deadline) {
@@ -353,9 +401,10 @@ func (h *hostileServer) serve(c net.Conn, idx int) {
 	}
 }
 
-// waitServed waits until n connections have been accepted and completely
-// served (the peer closed them).  false = timeout.
-func (h *hostileServer) waitServed(n int, d time.Duration) bool {
+// waitServed waits until n connections of this case have been accepted and completely served (the peer closed
+// them).  false = timeout.
+func (hs *hostileServer) waitServed(n int, d time.Duration) bool {
+	h := hs.l
 	deadline := time.Now().Add(d)
 	t := time.AfterFunc(d, func() { h.mu.Lock(); h.cond.Broadcast(); h.mu.Unlock() })
 	defer t.Stop()
@@ -370,16 +419,20 @@ func (h *hostileServer) waitServed(n int, d time.Duration) bool {
 	return true
 }
 
-func (h *hostileServer) attempts() int {
-	h.mu.Lock()
-	defer h.mu.Unlock()
-	return h.accepted
+// attempts is the number of connections accepted for this case.
+func (hs *hostileServer) attempts() int {
+	hs.l.mu.Lock()
+	defer hs.l.mu.Unlock()
+	return hs.l.accepted - hs.l.base
 }
 
-func (h *hostileServer) close() {
-	_ = h.ln.Close()
+// close ends the case: its connections are closed, later connections are turned away.
+func (hs *hostileServer) close() {
+	h := hs.l
 	h.mu.Lock()
-	cs := append([]net.Conn(nil), h.conns...)
+	cs := h.conns
+	h.conns = nil
+	h.script = nil
 	h.mu.Unlock()
 	for _, c := range cs {
 		_ = c.Close()
